@@ -33,7 +33,8 @@ BUDGET = {'quick': 40, 'thorough': 400}
 QUOTA = {'quick': 25, 'thorough': 500}
 REQUIRED = {'quick': {'evaluations': 15000, 'scripts_scanned': 15000, 'scripts_with_quoted_embed': 3000,
                       'scripts_with_comment_embed': 3000, 'repeated_expression_scripts': 500, 'runs': 300,
-                      'level_identity_checks': 150, 'pragma_vs_argument_checks': 60, 'metadata_only_checks': 300},
+                      'level_identity_checks': 150, 'pragma_vs_argument_checks': 60, 'metadata_only_checks': 300,
+                      'first_subset_empty_messages': 4},
             'thorough': {'evaluations': 250000, 'scripts_scanned': 250000, 'scripts_with_quoted_embed': 50000,
                          'scripts_with_comment_embed': 50000, 'repeated_expression_scripts': 10000, 'runs': 8000,
                          'level_identity_checks': 3000, 'pragma_vs_argument_checks': 1000, 'metadata_only_checks': 8000}}
@@ -254,14 +255,18 @@ def expr_pool(msg):
     nodes_all = json.loads(json.dumps(nj[-2][-1]['value'], default=lambda b: b.decode('latin-1')))
     pool = ['%edition', '%n_subsets', '%data_category', '%3.section_length', '%is_compressed', '%year', '%no_such']
     if nodes_all:
-        for p in nested.derive_paths(nodes_all[0], max_depth=4)[:40]:
-            if all(sep == '/' for sep, _ in p):
-                pool.append(''.join(sep + i for sep, i in p))
+        # paths and IDs from EVERY subset: an element may be absent from the first subset (zero-count
+        # delayed replication) and present in a later one
         ids = []
-        for p in nested.derive_paths(nodes_all[0], max_depth=6):
-            i = p[-1][1]
-            if i[0] == '0' and i not in ids:
-                ids.append(i)
+        for sub in nodes_all[::-1][:4]:
+            for p in nested.derive_paths(sub, max_depth=4)[:40]:
+                e = ''.join(sep + i for sep, i in p)
+                if all(sep == '/' for sep, _ in p) and e not in pool:
+                    pool.append(e)
+            for p in nested.derive_paths(sub, max_depth=6):
+                i = p[-1][1]
+                if i[0] == '0' and i not in ids:
+                    ids.append(i)
         pool += ids[:20]
         pool += ['@[0] > ' + i for i in ids[:5]]
         pool += ['@[-1] > %s[0]' % i for i in ids[:3]]
@@ -277,6 +282,18 @@ def expr_pool(msg):
         except PyBufrKitError:
             pass
     return ok
+
+
+def join_bits(m1, m2):
+    """octet-padded data bits of m1's subsets followed by m2's subsets (both uncompressed)"""
+    w = R.WBits()
+    for m in (m1, m2):
+        for st, en in m.spans:
+            n = en - st
+            if n:
+                w.u((m.data_int >> (m.data_bits - en)) & ((1 << n) - 1), n)
+    w.pad8()
+    return w.bytes()
 
 
 def run(ctx):
@@ -312,6 +329,41 @@ def run(ctx):
             continue
         ctx.count('corpus_messages')
         run_checks(ctx, m, pool, 'corpus:' + os.path.basename(f))
+    # multi-subset uncompressed messages whose FIRST subset has empty delayed replications
+    from mon.gen.shapes import EdgePolicy
+
+    class FirstEmpty(R.Policy):
+        calls = 0
+
+        def count(self, pw, w, eid):
+            FirstEmpty.calls += 1
+            return 0 if FirstEmpty.first else self.rng.randint(1, 3)
+    B33, D33 = cases.tables(33)
+    for j, ids in enumerate([[1001, 101000, 31001, 12001, 4024], [103000, 31001, 1001, 12001, 2001, 5001],
+                             [301011, 102000, 31001, 12001, 101000, 31001, 4024]]):
+        if not ctx.mine(j):
+            continue
+        for nsub in (2, 3):
+            FirstEmpty.first = True
+            w = R.WBits() if False else None
+            # build subset by subset: first subset empty, later ones populated
+            pol = FirstEmpty(rng)
+            try:
+                m1 = R.build_message(ids, B33, D33, pol, 1, False, 4)
+                FirstEmpty.first = False
+                m2 = R.build_message(ids, B33, D33, pol, nsub, False, 4)
+            except R.Unsupported:
+                continue
+            # join: subset of m1 followed by subsets of m2 (R copies the bit spans verbatim)
+            joined = R.build_frame(4, m2.meta, ids, 1 + nsub, False, join_bits(m1, m2), None, None)
+            try:
+                m = dec.process(joined, file_path='first-empty-%d' % j)
+                pool = expr_pool(m)
+            except Exception:
+                ctx.count('decode_raises')
+                continue
+            ctx.count('first_subset_empty_messages')
+            run_checks(ctx, m, pool, 'first-subset-empty')
     q = 0
     while q < QUOTA[ctx.tier] and ctx.more():
         q += 1
